@@ -105,6 +105,10 @@ enum Dest {
     /// as Old / None, plus a stale `.svspart` (longer than any content) left by an earlier killed pull
     OldStale,
     NoneStale,
+    /// destination absent and its parent directory missing: the temp file cannot be created
+    NoParent,
+    /// destination absent, reached through a symlinked parent directory
+    SymParent,
 }
 impl Dest {
     fn stale(self) -> bool {
@@ -113,7 +117,7 @@ impl Dest {
     fn base(self) -> Dest {
         match self {
             Dest::OldStale => Dest::Old,
-            Dest::NoneStale => Dest::None,
+            Dest::NoneStale | Dest::NoParent | Dest::SymParent => Dest::None,
             d => d,
         }
     }
@@ -140,6 +144,10 @@ struct Script {
     wfault: Option<u64>,
     /// every write succeeds, `fsync` fails (the temp path is planted as a symlink to /dev/null: EINVAL)
     sync_fault: bool,
+    /// the async puller is driven over a `WebSocketClient` instead of an `AsyncClient`
+    ws: bool,
+    /// the caller-supplied `verify` panics (`verify_ok` is false as well: nothing may be published)
+    verify_panics: bool,
 }
 
 /// Deterministic filler for large bodies (`g<seed>.<len>` on the line protocol; twin of `genBytes`).
@@ -188,8 +196,9 @@ fn parse_resp(w: &str) -> Option<Resp> {
 impl Script {
     fn words(&self) -> String {
         let mut s = format!(
-            "{} {} {} {} {} {} {} - {} {} wire",
+            "{}{} {} {} {} {} {} {} - {} {} wire",
             self.puller.name(),
+            if self.ws { "@ws" } else { "" },
             if self.zstd { "zstd" } else { "none" },
             if self.beve { "beve" } else { "raw" },
             match self.open {
@@ -197,7 +206,7 @@ impl Script {
                 Open::Err => "err",
                 Open::Cut => "cut",
             },
-            if self.verify_ok { "ok" } else { "rej" },
+            if self.verify_panics { "panic" } else if self.verify_ok { "ok" } else { "rej" },
             self.trailer,
             match self.dest {
                 Dest::Old => "old",
@@ -205,6 +214,8 @@ impl Script {
                 Dest::Dir => "dir",
                 Dest::OldStale => "olds",
                 Dest::NoneStale => "nones",
+                Dest::NoParent => "noparent",
+                Dest::SymParent => "symparent",
             },
             match &self.dec {
                 Dec::Na => "-".to_string(),
@@ -233,7 +244,8 @@ impl Script {
         let after = if i < w.len() { w[i + 1..].iter().map(|s| s.to_string()).collect() } else { vec![] };
         Some((
             Script {
-                puller: Puller::parse(w[0])?,
+                puller: Puller::parse(w[0].trim_end_matches("@ws"))?,
+                ws: w[0].ends_with("@ws"),
                 zstd: w[1] == "zstd",
                 beve: w[2] == "beve",
                 open: match w[3] {
@@ -242,12 +254,15 @@ impl Script {
                     _ => Open::Cut,
                 },
                 verify_ok: w[4] == "ok",
+                verify_panics: w[4] == "panic",
                 trailer: w[5].parse().ok()?,
                 dest: match w[6] {
                     "old" => Dest::Old,
                     "none" => Dest::None,
                     "olds" => Dest::OldStale,
                     "nones" => Dest::NoneStale,
+                    "noparent" => Dest::NoParent,
+                    "symparent" => Dest::SymParent,
                     _ => Dest::Dir,
                 },
                 dec: match w[8] {
@@ -281,7 +296,7 @@ impl Script {
     /// SPECIFICATION (property text, evaluated here independently of the Lean model): the content that
     /// must be published; `None` = the script is a failing one and nothing may be published.
     fn expected_content(&self) -> Option<Vec<u8>> {
-        if self.open != Open::Ok || !self.puller.tags_ok(self.zstd, self.beve) || self.dest == Dest::Dir || self.sync_fault {
+        if self.open != Open::Ok || !self.puller.tags_ok(self.zstd, self.beve) || self.dest == Dest::Dir || self.dest == Dest::NoParent || self.sync_fault {
             return None;
         }
         if self.puller.verifies() && !self.verify_ok {
@@ -346,6 +361,8 @@ struct Sess {
 struct Fake {
     addr: SocketAddr,
     reg: Arc<Mutex<HashMap<String, Arc<Sess>>>>,
+    ws_addr: Option<SocketAddr>,
+    ids: Arc<AtomicU64>,
 }
 
 fn read_frame(s: &mut TcpStream) -> Option<RawFrame> {
@@ -362,85 +379,110 @@ fn read_frame(s: &mut TcpStream) -> Option<RawFrame> {
     Some(RawFrame { h: rh, query: q, body: b })
 }
 
-fn reply(s: &mut TcpStream, id: u64, ec: u32, qfmt: u16, q: &[u8], bfmt: u16, b: &[u8]) -> bool {
-    let mut f = RawFrame::request(id, false, qfmt, q, bfmt, b);
-    f.h.ec = ec;
-    s.write_all(&f.to_vec()).is_ok() && s.flush().is_ok()
+type Reg = Arc<Mutex<HashMap<String, Arc<Sess>>>>;
+
+enum Act {
+    Reply(Vec<u8>),
+    Silent,
+    Close,
 }
 
-fn fake_conn(mut s: TcpStream, reg: Arc<Mutex<HashMap<String, Arc<Sess>>>>, ids: Arc<AtomicU64>) {
+fn frame(id: u64, ec: u32, qfmt: u16, q: &[u8], bfmt: u16, b: &[u8]) -> Act {
+    let mut f = RawFrame::request(id, false, qfmt, q, bfmt, b);
+    f.h.ec = ec;
+    Act::Reply(f.to_vec())
+}
+
+/// What the scripted peer does with one request (shared by the TCP and the WebSocket front end).
+fn answer(f: &RawFrame, reg: &Reg, ids: &AtomicU64, streams: &mut HashMap<u64, Arc<Sess>>) -> Act {
+    let path = String::from_utf8_lossy(&f.query).to_string();
+    if f.h.notify != 0 {
+        return Act::Silent; // cancel (notify form): nothing to answer
+    }
+    match path.as_str() {
+        "/_svs/open" => {
+            let Ok(req) = beve::from_slice::<OpenReq>(&f.body) else {
+                return frame(f.h.id, 4, 0, b"", 3, b"bad open");
+            };
+            let Some(sess) = reg.lock().unwrap().get(&req.resource).cloned() else {
+                return frame(f.h.id, 6, 0, b"", 3, b"unknown resource");
+            };
+            match sess.script.open {
+                Open::Cut => Act::Close,
+                Open::Err if sess.open_flavour == 0 => frame(f.h.id, 6, 0, b"", 3, b"no such resource"),
+                o => {
+                    let id = ids.fetch_add(1, Ordering::Relaxed);
+                    streams.insert(id, sess.clone());
+                    let mut r = OpenResp { version: 1, stream_id: id, format: if sess.script.beve { 1 } else { 0 }, compression: sess.script.zstd as u8 };
+                    if o == Open::Err {
+                        if sess.open_flavour == 1 {
+                            r.version = 2;
+                        } else {
+                            r.compression = 7;
+                        }
+                    }
+                    frame(f.h.id, 0, 0, b"", 1, &beve::to_vec(&r).unwrap())
+                }
+            }
+        }
+        "/_svs/next" => {
+            let Some(sess) = beve::from_slice::<NextReq>(&f.body).ok().and_then(|r| streams.get(&r.stream_id).cloned()) else {
+                return frame(f.h.id, 3, 0, b"", 3, b"unknown stream");
+            };
+            let r = {
+                let mut p = sess.pos.lock().unwrap();
+                let r = sess.script.wire.get(*p).cloned().unwrap_or(Resp::Cut);
+                *p += 1;
+                r
+            };
+            match r {
+                Resp::Chunk(b, last) => frame(f.h.id, 0, 0, &[last as u8], 0, &b),
+                Resp::Error => frame(f.h.id, 9, 0, b"", 3, b"producer failed"),
+                Resp::Cut => Act::Close,
+            }
+        }
+        _ => frame(f.h.id, 6, 0, b"", 3, b"no route"),
+    }
+}
+
+fn fake_conn(mut s: TcpStream, reg: Reg, ids: Arc<AtomicU64>) {
     let _ = s.set_nodelay(true);
     let mut streams: HashMap<u64, Arc<Sess>> = HashMap::new();
     while let Some(f) = read_frame(&mut s) {
-        let path = String::from_utf8_lossy(&f.query).to_string();
-        if f.h.notify != 0 {
-            continue; // cancel (notify form): nothing to answer
+        match answer(&f, &reg, &ids, &mut streams) {
+            Act::Reply(b) => {
+                if s.write_all(&b).is_err() || s.flush().is_err() {
+                    return;
+                }
+            }
+            Act::Silent => {}
+            Act::Close => {
+                let _ = s.shutdown(std::net::Shutdown::Both);
+                return;
+            }
         }
-        match path.as_str() {
-            "/_svs/open" => {
-                let Ok(req) = beve::from_slice::<OpenReq>(&f.body) else {
-                    reply(&mut s, f.h.id, 4, 0, b"", 3, b"bad open");
-                    continue;
-                };
-                let Some(sess) = reg.lock().unwrap().get(&req.resource).cloned() else {
-                    reply(&mut s, f.h.id, 6, 0, b"", 3, b"unknown resource");
-                    continue;
-                };
-                match sess.script.open {
-                    Open::Cut => {
-                        let _ = s.shutdown(std::net::Shutdown::Both);
-                        return;
-                    }
-                    Open::Err if sess.open_flavour == 0 => {
-                        reply(&mut s, f.h.id, 6, 0, b"", 3, b"no such resource");
-                    }
-                    o => {
-                        let id = ids.fetch_add(1, Ordering::Relaxed);
-                        streams.insert(id, sess.clone());
-                        let mut r = OpenResp {
-                            version: 1,
-                            stream_id: id,
-                            format: if sess.script.beve { 1 } else { 0 },
-                            compression: sess.script.zstd as u8,
-                        };
-                        if o == Open::Err {
-                            if sess.open_flavour == 1 {
-                                r.version = 2;
-                            } else {
-                                r.compression = 7;
-                            }
-                        }
-                        reply(&mut s, f.h.id, 0, 0, b"", 1, &beve::to_vec(&r).unwrap());
-                    }
+    }
+}
+
+/// The same peer behind a WebSocket endpoint: one REPE frame per binary message; a cut drops the TCP
+/// connection without a close handshake.
+async fn fake_ws_conn(s: tokio::net::TcpStream, reg: Reg, ids: Arc<AtomicU64>) {
+    use futures_util::{SinkExt, StreamExt};
+    use tokio_tungstenite::tungstenite::Message as Ws;
+    let _ = s.set_nodelay(true);
+    let Ok(mut ws) = tokio_tungstenite::accept_async(s).await else { return };
+    let mut streams: HashMap<u64, Arc<Sess>> = HashMap::new();
+    while let Some(Ok(m)) = ws.next().await {
+        let Ws::Binary(payload) = m else { continue };
+        let Some((f, _)) = RawFrame::parse_prefix(&payload) else { return };
+        match answer(&f, &reg, &ids, &mut streams) {
+            Act::Reply(b) => {
+                if ws.send(Ws::Binary(b.into())).await.is_err() {
+                    return;
                 }
             }
-            "/_svs/next" => {
-                let Some(sess) = beve::from_slice::<NextReq>(&f.body).ok().and_then(|r| streams.get(&r.stream_id).cloned()) else {
-                    reply(&mut s, f.h.id, 3, 0, b"", 3, b"unknown stream");
-                    continue;
-                };
-                let r = {
-                    let mut p = sess.pos.lock().unwrap();
-                    let r = sess.script.wire.get(*p).cloned().unwrap_or(Resp::Cut);
-                    *p += 1;
-                    r
-                };
-                match r {
-                    Resp::Chunk(b, last) => {
-                        reply(&mut s, f.h.id, 0, 0, &[last as u8], 0, &b);
-                    }
-                    Resp::Error => {
-                        reply(&mut s, f.h.id, 9, 0, b"", 3, b"producer failed");
-                    }
-                    Resp::Cut => {
-                        let _ = s.shutdown(std::net::Shutdown::Both);
-                        return;
-                    }
-                }
-            }
-            _ => {
-                reply(&mut s, f.h.id, 6, 0, b"", 3, b"no route");
-            }
+            Act::Silent => {}
+            Act::Close => return, // dropping the stream closes the socket
         }
     }
 }
@@ -451,17 +493,30 @@ fn start_fake() -> Fake {
     let reg: Arc<Mutex<HashMap<String, Arc<Sess>>>> = Arc::new(Mutex::new(HashMap::new()));
     let ids = Arc::new(AtomicU64::new(1));
     let reg2 = reg.clone();
+    let ids2 = ids.clone();
     std::thread::spawn(move || {
         for c in l.incoming() {
             let Ok(c) = c else { continue };
-            let (r, i) = (reg2.clone(), ids.clone());
+            let (r, i) = (reg2.clone(), ids2.clone());
             std::thread::spawn(move || fake_conn(c, r, i));
         }
     });
-    Fake { addr, reg }
+    Fake { addr, reg, ws_addr: None, ids }
 }
 
 impl Fake {
+    /// Start the WebSocket front end on `rt`.
+    fn start_ws(&mut self, rt: &tokio::runtime::Runtime) {
+        let (reg, ids) = (self.reg.clone(), self.ids.clone());
+        let l = rt.block_on(async { tokio::net::TcpListener::bind("127.0.0.1:0").await }).expect("bind ws");
+        self.ws_addr = Some(l.local_addr().unwrap());
+        rt.spawn(async move {
+            loop {
+                let Ok((c, _)) = l.accept().await else { continue };
+                tokio::spawn(fake_ws_conn(c, reg.clone(), ids.clone()));
+            }
+        });
+    }
     fn register(&self, name: &str, sc: &Script, flavour: u8) -> Arc<Sess> {
         let s = Arc::new(Sess { script: sc.clone(), open_flavour: flavour, pos: Mutex::new(0) });
         self.reg.lock().unwrap().insert(name.to_string(), s.clone());
@@ -482,6 +537,15 @@ struct Seen {
     trailer: Vec<u8>,
 }
 
+/// Run once from inside the caller-supplied `verify` (the temp file exists and is complete then).
+static VERIFY_HOOK: Mutex<Option<Box<dyn FnOnce() + Send>>> = Mutex::new(None);
+fn run_verify_hook() {
+    let h = VERIFY_HOOK.lock().unwrap().take();
+    if let Some(h) = h {
+        h();
+    }
+}
+
 fn rej() -> RepeError {
     RepeError::Io(std::io::Error::other("verification rejected"))
 }
@@ -496,10 +560,12 @@ fn call_puller(
     trailer: usize,
     verify_ok: bool,
     seen: Arc<Mutex<Seen>>,
+    ws: Option<SocketAddr>,
 ) -> Result<(), RepeError> {
     let v1 = {
         let seen = seen.clone();
         move |d: Vec<u8>| {
+            run_verify_hook();
             let mut s = seen.lock().unwrap();
             s.called = true;
             s.digest = d;
@@ -509,6 +575,7 @@ fn call_puller(
     let v2 = {
         let seen = seen.clone();
         move |d: Vec<u8>, t: &[u8]| {
+            run_verify_hook();
             let mut s = seen.lock().unwrap();
             s.called = true;
             s.digest = d;
@@ -516,6 +583,16 @@ fn call_puller(
             if verify_ok { Ok(()) } else { Err(rej()) }
         }
     };
+    if let (true, Some(wsa)) = (p.is_async(), ws) {
+        return rt.block_on(async move {
+            let c = repe::WebSocketClient::connect(&format!("ws://{wsa}")).await.map_err(RepeError::Io)?;
+            match p {
+                Puller::FileAsync => repe::pull_to_file_async(&c, resource, dest).await.map(|_| ()),
+                Puller::VerifiedAsync => repe::pull_to_file_verified_async(&c, resource, dest, Vec::<u8>::new(), v1).await,
+                _ => repe::pull_to_file_trailer_verified_async(&c, resource, dest, trailer, Vec::<u8>::new(), v2).await,
+            }
+        });
+    }
     if p.is_async() {
         rt.block_on(async move {
             let c = AsyncClient::connect(addr).await.map_err(RepeError::Io)?;
@@ -554,7 +631,7 @@ fn child_main(a: &[String]) -> ! {
     let addr: SocketAddr = a[1].parse().expect("addr");
     let rt = tokio::runtime::Builder::new_current_thread().enable_all().build().unwrap();
     let seen = Arc::new(Mutex::new(Seen::default()));
-    let r = call_puller(&rt, p, addr, &a[2], Path::new(&a[3]), a[4].parse().unwrap(), a[5] == "ok", seen.clone());
+    let r = call_puller(&rt, p, addr, &a[2], Path::new(&a[3]), a[4].parse().unwrap(), a[5] == "ok", seen.clone(), None);
     let mut o = std::io::stdout();
     let sn = seen.lock().unwrap().clone();
     let _ = writeln!(o, "ret {} seen {} trailer {}", if r.is_ok() { "ok" } else { "err" }, digest(&sn.digest), hex(&sn.trailer));
@@ -595,7 +672,19 @@ fn tmp_present(dest: &Path) -> bool {
 fn prepare(dir: &Path, d: Dest) -> PathBuf {
     let _ = std::fs::remove_dir_all(dir);
     std::fs::create_dir_all(dir).expect("case dir");
-    let dest = dir.join("out.bin");
+    prepare_named(dir, "out.bin", d)
+}
+
+fn prepare_named(dir: &Path, name: &str, d: Dest) -> PathBuf {
+    let dest = match d {
+        Dest::NoParent => dir.join("missing").join(name),
+        Dest::SymParent => {
+            std::fs::create_dir_all(dir.join("real")).unwrap();
+            let _ = std::os::unix::fs::symlink(dir.join("real"), dir.join("link"));
+            dir.join("link").join(name)
+        }
+        _ => dir.join(name),
+    };
     if d.stale() {
         std::fs::write(tmp_of(&dest), vec![0xEEu8; 40000]).unwrap();
     }
@@ -642,6 +731,8 @@ fn show_dest(s: &DestState) -> String {
 }
 
 struct Obs {
+    /// the call unwound with a panic (from the caller-supplied verify)
+    panicked: bool,
     ok: bool,
     dest: DestState,
     tmp: bool,
@@ -674,7 +765,10 @@ fn oracles(out: &mut Out, sc: &Script, o: &Obs, op: &str) {
         ),
     }
     // a pull that fails before it creates its temp file cannot be blamed for a stale one
-    let never_created = sc.open != Open::Ok || !sc.puller.tags_ok(sc.zstd, sc.beve);
+    let never_created = sc.open != Open::Ok || !sc.puller.tags_ok(sc.zstd, sc.beve) || sc.dest == Dest::NoParent;
+    if o.panicked && !sc.verify_panics {
+        out.oracle_fail(&format!("commit.{p}.panic"), "the pull panicked although no caller-supplied code does", &ops);
+    }
     if o.tmp && !(sc.dest.stale() && never_created) {
         out.oracle_fail(&format!("commit.{p}.temp-left"), "the .svspart sibling exists after the in-process pull returned", &ops);
     }
@@ -707,7 +801,7 @@ fn oracles(out: &mut Out, sc: &Script, o: &Obs, op: &str) {
 }
 
 fn obs_line(idx: &str, sc: &Script, o: &Obs) -> String {
-    let mut s = format!("{} ret {} dest {} tmp {}", idx, if o.ok { "ok" } else { "err" }, show_dest(&o.dest), o.tmp as u8);
+    let mut s = format!("{} ret {} dest {} tmp {}", idx, if o.panicked { "panic" } else if o.ok { "ok" } else { "err" }, show_dest(&o.dest), o.tmp as u8);
     if sc.puller.has_trailer() && o.ok {
         s.push_str(&format!(" seen {} trailer {}", digest(&o.seen.digest), hex(&o.seen.trailer)));
     }
@@ -737,8 +831,15 @@ impl Ctx {
         let (_, dir) = self.fresh();
         let dest = prepare_sc(&dir, sc);
         let seen = Arc::new(Mutex::new(Seen::default()));
-        let r = call_puller(&self.rt, sc.puller, addr, resource, &dest, sc.trailer, sc.verify_ok, seen.clone());
-        let o = Obs { ok: r.is_ok(), dest: dest_state(&dest, sc.dest), tmp: tmp_present(&dest), seen: seen.lock().unwrap().clone() };
+        let ws = if sc.ws { self.fake.ws_addr } else { None };
+        if sc.verify_panics {
+            *VERIFY_HOOK.lock().unwrap() = Some(Box::new(|| panic!("verify panics")));
+        }
+        let r = catch(|| call_puller(&self.rt, sc.puller, addr, resource, &dest, sc.trailer, sc.verify_ok, seen.clone(), ws));
+        *VERIFY_HOOK.lock().unwrap() = None;
+        let panicked = r.is_err();
+        let r = r.unwrap_or_else(|_| Err(rej()));
+        let o = Obs { panicked, ok: r.is_ok(), dest: dest_state(&dest, sc.dest), tmp: tmp_present(&dest), seen: seen.lock().unwrap().clone() };
         let _ = std::fs::remove_dir_all(&dir);
         o
     }
@@ -784,7 +885,7 @@ impl Ctx {
             let _ = std::fs::remove_dir_all(&dir);
             return;
         }
-        let o = Obs { ok: w[1] == "ok", dest: dest_state(&dest, sc.dest), tmp: tmp_present(&dest), seen: Seen::default() };
+        let o = Obs { panicked: false, ok: w[1] == "ok", dest: dest_state(&dest, sc.dest), tmp: tmp_present(&dest), seen: Seen::default() };
         let _ = std::fs::remove_dir_all(&dir);
         oracles(out, sc, &o, op);
         count_case(out, sc, "wfault");
@@ -797,13 +898,95 @@ impl Ctx {
     }
 }
 
+impl Ctx {
+    /// `sibling <i> <name>`: which other directory entry exists while `verify` runs = the temp sibling's name.
+    fn exec_sibling(&mut self, out: &mut Out, idx: &str, name: &str) {
+        let op = format!("sibling {} {}", idx, hex(name.as_bytes()));
+        out.begin(&op);
+        let (res, dir) = self.fresh();
+        let _ = std::fs::remove_dir_all(&dir);
+        std::fs::create_dir_all(&dir).unwrap();
+        let dest = dir.join(name);
+        let sc = make_script(Puller::Trailer, false, b"payload-and-trailer", &[5], None, false);
+        self.fake.register(&res, &sc, 0);
+        let listing: Arc<Mutex<Vec<String>>> = Arc::new(Mutex::new(vec![]));
+        let (l2, d2, n2) = (listing.clone(), dir.clone(), name.to_string());
+        *VERIFY_HOOK.lock().unwrap() = Some(Box::new(move || {
+            let mut v: Vec<String> = std::fs::read_dir(&d2).map(|r| r.filter_map(|e| e.ok()).map(|e| e.file_name().to_string_lossy().to_string()).collect()).unwrap_or_default();
+            v.retain(|x| *x != n2);
+            v.sort();
+            *l2.lock().unwrap() = v;
+        }));
+        let seen = Arc::new(Mutex::new(Seen::default()));
+        let r = call_puller(&self.rt, Puller::Trailer, self.fake.addr, &res, &dest, 7, true, seen, None);
+        self.fake.unregister(&res);
+        *VERIFY_HOOK.lock().unwrap() = None;
+        let l = listing.lock().unwrap().clone();
+        let after: Vec<String> = std::fs::read_dir(&dir).map(|r| r.filter_map(|e| e.ok()).map(|e| e.file_name().to_string_lossy().to_string()).collect()).unwrap_or_default();
+        if r.is_err() || after != vec![name.to_string()] {
+            out.oracle_fail("commit.sibling.pull-failed-or-stray-entry", &format!("pull to {name:?}: result ok={}, directory afterwards {after:?}", r.is_ok()), &[op.clone()]);
+        }
+        let _ = std::fs::remove_dir_all(&dir);
+        out.count("sibling.names");
+        out.case(&op, &format!("{idx} temp {}", l.iter().map(|x| hex(x.as_bytes())).collect::<Vec<_>>().join(",")), true);
+    }
+
+    /// `nest <i> <nameA> <nameB> SCRIPT_A :: SCRIPT_B`: pull B (blocking puller) runs to its end inside
+    /// pull A's `verify`, in the same directory, i.e. while A's temp file is complete and not yet renamed.
+    fn exec_nest(&mut self, out: &mut Out, idx: &str, na: &str, nb: &str, a: &Script, b: &Script) {
+        let op = format!("nest {} {} {} {} :: {}", idx, hex(na.as_bytes()), hex(nb.as_bytes()), a.words(), b.words());
+        out.begin(&op);
+        let (ra, dir) = self.fresh();
+        let (rb, _) = self.fresh();
+        let _ = std::fs::remove_dir_all(&dir);
+        std::fs::create_dir_all(&dir).unwrap();
+        let da = prepare_named(&dir, na, a.dest);
+        let db = prepare_named(&dir, nb, b.dest);
+        self.fake.register(&ra, a, 0);
+        self.fake.register(&rb, b, 0);
+        let bres: Arc<Mutex<Option<bool>>> = Arc::new(Mutex::new(None));
+        {
+            let (bres, db, rb, b, addr) = (bres.clone(), db.clone(), rb.clone(), b.clone(), self.fake.addr);
+            *VERIFY_HOOK.lock().unwrap() = Some(Box::new(move || {
+                // a blocking pull on a plain thread (never a nested block_on)
+                let h = std::thread::spawn(move || {
+                    let rt = tokio::runtime::Builder::new_current_thread().enable_all().build().unwrap();
+                    call_puller(&rt, b.puller, addr, &rb, &db, b.trailer, b.verify_ok, Arc::new(Mutex::new(Seen::default())), None).is_ok()
+                });
+                *bres.lock().unwrap() = h.join().ok();
+            }));
+        }
+        let seen = Arc::new(Mutex::new(Seen::default()));
+        let r = call_puller(&self.rt, a.puller, self.fake.addr, &ra, &da, a.trailer, a.verify_ok, seen.clone(), None);
+        *VERIFY_HOOK.lock().unwrap() = None;
+        self.fake.unregister(&ra);
+        self.fake.unregister(&rb);
+        let oa = Obs { panicked: false, ok: r.is_ok(), dest: dest_state(&da, a.dest), tmp: tmp_present(&da), seen: seen.lock().unwrap().clone() };
+        let bran = *bres.lock().unwrap();
+        let ob = Obs { panicked: false, ok: bran == Some(true), dest: dest_state(&db, b.dest), tmp: tmp_present(&db), seen: Seen::default() };
+        let _ = std::fs::remove_dir_all(&dir);
+        if bran.is_none() {
+            out.oracle_fail("commit.nest.inner-pull-did-not-run", "verify of the outer pull was not reached or the inner pull panicked", &[op.clone()]);
+        }
+        oracles(out, a, &oa, &op);
+        oracles(out, b, &Obs { seen: Seen::default(), ..ob_clone(&ob) }, &op);
+        out.count("nest.pairs");
+        let line = format!("{idx} A ret {} dest {} tmp {} B ret {} dest {} tmp {}", if oa.ok { "ok" } else { "err" }, show_dest(&oa.dest), oa.tmp as u8, if ob.ok { "ok" } else { "err" }, show_dest(&ob.dest), ob.tmp as u8);
+        out.case(&op, &line, true);
+    }
+}
+
+fn ob_clone(o: &Obs) -> Obs {
+    Obs { panicked: false, ok: o.ok, dest: o.dest.clone(), tmp: o.tmp, seen: o.seen.clone() }
+}
+
 fn nontrivial(sc: &Script) -> bool {
     // at least one chunk was delivered, or the script fails for a reason other than a dead open
     sc.open == Open::Ok && sc.wire.iter().any(|r| matches!(r, Resp::Chunk(b, _) if !b.is_empty()))
 }
 
 fn count_case(out: &mut Out, sc: &Script, kind: &str) {
-    out.count(&format!("{kind}.puller.{}", sc.puller.name()));
+    out.count(&format!("{kind}.puller.{}{}", sc.puller.name(), if sc.ws { "@ws" } else { "" }));
     out.count(&format!("{kind}.comp.{}", if sc.zstd { "zstd" } else { "none" }));
     out.count(&format!("{kind}.dest.{:?}", sc.dest));
     let end = if sc.open != Open::Ok {
@@ -826,6 +1009,8 @@ fn count_case(out: &mut Out, sc: &Script, kind: &str) {
         "verify-reject"
     } else if sc.puller.has_trailer() && sc.expected_content().is_none() && sc.dest != Dest::Dir {
         "short-trailer"
+    } else if sc.dest == Dest::NoParent {
+        "create-refused"
     } else if sc.dest == Dest::Dir {
         "rename-refused"
     } else if sc.expected_content().is_none() {
@@ -1161,7 +1346,7 @@ impl Ctx {
             }
         };
         // end state as in the in-process runs
-        let o = Obs { ok: r.ret == Some(true), dest: dest_state(&dest, sc.dest), tmp: tmp_present(&dest), seen: Seen::default() };
+        let o = Obs { panicked: false, ok: r.ret == Some(true), dest: dest_state(&dest, sc.dest), tmp: tmp_present(&dest), seen: Seen::default() };
         oracles(out, sc, &o, &op);
         let _ = std::fs::remove_dir_all(&dir);
         count_case(out, sc, "trace");
@@ -1367,7 +1552,7 @@ fn make_script(p: Puller, zstd: bool, logical: &[u8], sizes: &[usize], fault: Op
     let wire_bytes = if zstd { zstd_of(logical) } else { logical.to_vec() };
     let cs = split_at_sizes(&wire_bytes, sizes);
     let wire = wire_of(&cs, fault, last_on_empty);
-    let mut sc = Script { puller: p, zstd, beve: true, open: Open::Ok, verify_ok: true, trailer: 0, dest: Dest::None, dec: Dec::Na, wire, wfault: None, sync_fault: false };
+    let mut sc = Script { puller: p, zstd, beve: true, open: Open::Ok, verify_ok: true, trailer: 0, dest: Dest::None, dec: Dec::Na, wire, wfault: None, sync_fault: false, ws: false, verify_panics: false };
     sc.dec = dec_for(&sc);
     sc
 }
@@ -1489,6 +1674,82 @@ fn gen_and_run(args: &Args, out: &mut Out, ctx: &mut Ctx) {
         }
     }
 
+    // (A') the three async pullers over a WebSocketClient (same generic pull code, other transport)
+    for &p in &[Puller::FileAsync, Puller::VerifiedAsync, Puller::TrailerAsync] {
+        for zstd in [false, true] {
+            let n = 20 + rng.below(30) as usize;
+            let logical: Vec<u8> = rng.bytes(n).iter().map(|b| b | 1).collect();
+            let sizes = [7usize, 9, 4];
+            let nchunks = split_at_sizes(&if zstd { zstd_of(&logical) } else { logical.clone() }, &sizes).len();
+            let mut cases: Vec<Script> = vec![make_script(p, zstd, &logical, &sizes, None, false), make_script(p, zstd, &logical, &sizes, None, true)];
+            for k in 0..=nchunks {
+                for f in [Resp::Error, Resp::Cut] {
+                    cases.push(make_script(p, zstd, &logical, &sizes, Some((k, f)), false));
+                }
+            }
+            let mut rejd = make_script(p, zstd, &logical, &sizes, None, false);
+            rejd.verify_ok = false;
+            cases.push(rejd);
+            let mut oc = make_script(p, zstd, &logical, &sizes, None, false);
+            oc.open = Open::Cut;
+            cases.push(oc);
+            for (j, mut sc) in cases.into_iter().enumerate() {
+                sc.ws = true;
+                sc.dest = if j % 2 == 0 { Dest::Old } else { Dest::None };
+                sc.trailer = if p.has_trailer() { 5 } else { 0 };
+                ctx.exec_script(out, &next("x"), &sc, 0);
+            }
+        }
+    }
+
+    // a `verify` that panics: the unwinding drops the guard — nothing published, temp file removed
+    for &p in &[Puller::Trailer, Puller::VerifiedAsync, Puller::TrailerAsync] {
+        for zstd in [false, true] {
+            let logical: Vec<u8> = rng.bytes(50).iter().map(|b| b | 1).collect();
+            for (dest, fault) in [(Dest::None, None), (Dest::Old, None), (Dest::Old, Some((1usize, Resp::Cut)))] {
+                let mut sc = make_script(p, zstd, &logical, &[20, 20], fault, false);
+                sc.dest = dest;
+                sc.trailer = if p.has_trailer() { 4 } else { 0 };
+                sc.verify_ok = false;
+                sc.verify_panics = true;
+                ctx.exec_script(out, &next("s"), &sc, 0);
+            }
+        }
+    }
+
+    // (A'') where the temp file lives: names, parents, and two pulls side by side in one directory
+    for name in ["out", "out.bin", "out.tar.gz", ".hidden", "a b.dat", "x.svspart", "caf\u{e9}.bin", "out.bin.svspart.bak"] {
+        ctx.exec_sibling(out, &next("n"), name);
+    }
+    for &p in &PULLERS {
+        for zstd in [false, true] {
+            let logical: Vec<u8> = rng.bytes(30).iter().map(|b| b | 1).collect();
+            for (dest, fault) in [(Dest::NoParent, None), (Dest::SymParent, None), (Dest::SymParent, Some((1usize, Resp::Cut)))] {
+                let mut sc = make_script(p, zstd, &logical, &[11, 13], fault, false);
+                sc.dest = dest;
+                sc.trailer = if p.has_trailer() { 4 } else { 0 };
+                ctx.exec_script(out, &next("s"), &sc, 0);
+            }
+        }
+    }
+    for &pa in &[Puller::Trailer, Puller::VerifiedAsync, Puller::TrailerAsync] {
+        for &pb in &[Puller::File, Puller::Trailer] {
+            for (na, nb) in [("out.bin", "out.txt"), ("data", "data.bin"), ("a.svspart.x", "a")] {
+                for bfault in [None, Some((1usize, Resp::Error))] {
+                    let la: Vec<u8> = rng.bytes(40).iter().map(|b| b | 1).collect();
+                    let lb: Vec<u8> = rng.bytes(33).iter().map(|b| b | 1).collect();
+                    let mut a = make_script(pa, false, &la, &[9, 17], None, false);
+                    a.trailer = if pa.has_trailer() { 6 } else { 0 };
+                    a.dest = *rng.pick(&[Dest::None, Dest::Old]);
+                    let mut b = make_script(pb, false, &lb, &[8, 8], bfault, false);
+                    b.trailer = if pb.has_trailer() { 3 } else { 0 };
+                    b.dest = *rng.pick(&[Dest::None, Dest::Old]);
+                    ctx.exec_nest(out, &next("p"), na, nb, &a, &b);
+                }
+            }
+        }
+    }
+
     // (B) random scripts: sizes around io::copy's 8 KiB buffer, empty chunks, mixed write sizes for TrailerHold
     let nrand = if thorough { 1500 } else { 260 };
     for _ in 0..nrand {
@@ -1563,7 +1824,7 @@ fn gen_and_run(args: &Args, out: &mut Out, ctx: &mut Ctx) {
                 }
                 let r = Real { writer: rng.chance(1, 2), chunk, fail: f, depth: rng.below(5) as usize, payload: payload.clone() };
                 let (wire, dec) = real_wire(&r, zstd);
-                let mut sc = Script { puller: p, zstd, beve: false, open: Open::Ok, verify_ok: true, trailer: if p.has_trailer() { 8 } else { 0 }, dest: *rng.pick(&[Dest::None, Dest::Old]), dec, wire, wfault: None, sync_fault: false };
+                let mut sc = Script { puller: p, zstd, beve: false, open: Open::Ok, verify_ok: true, trailer: if p.has_trailer() { 8 } else { 0 }, dest: *rng.pick(&[Dest::None, Dest::Old]), dec, wire, wfault: None, sync_fault: false, ws: false, verify_panics: false };
                 if p.verifies() && f.is_none() && rng.chance(1, 3) {
                     sc.verify_ok = false;
                 }
@@ -1767,6 +2028,21 @@ fn replay(ops: Vec<String>, out: &mut Out, ctx: &mut Ctx) {
                     }
                 }
             }
+            "sibling" => {
+                if let Some(n) = unhex(w[2]).and_then(|b| String::from_utf8(b).ok()) {
+                    ctx.exec_sibling(out, &idx, &n);
+                }
+            }
+            "nest" => {
+                if w.len() > 5 {
+                    if let (Some(na), Some(nb), Some((a, rest))) = (unhex(w[2]).and_then(|b| String::from_utf8(b).ok()), unhex(w[3]).and_then(|b| String::from_utf8(b).ok()), Script::parse(&w[4..])) {
+                        let rw: Vec<&str> = rest.iter().map(|x| x.as_str()).collect();
+                        if let Some((b, _)) = Script::parse(&rw) {
+                            ctx.exec_nest(out, &idx, &na, &nb, &a, &b);
+                        }
+                    }
+                }
+            }
             "trace" => {
                 if let Some((sc, _)) = Script::parse(&w[2..]) {
                     ctx.exec_trace(out, &idx, &sc);
@@ -1801,6 +2077,8 @@ fn replay(ops: Vec<String>, out: &mut Out, ctx: &mut Ctx) {
                         wire,
                         wfault: None,
                         sync_fault: false,
+                        ws: false,
+                        verify_panics: false,
                     };
                     ctx.exec_value(out, &idx, w[2] == "async", &sc, w[7].parse().unwrap_or(0));
                 }
@@ -1816,6 +2094,7 @@ fn main() {
         child_main(&argv[2..]);
     }
     let args = Args::parse();
+    quiet_panics();
     let mut out = Out::new(&args.out);
     out.rule = "fault scripts (chunks then last | error response at k | connection cut at k, failing open, incompatible tags, rejecting verifier, trailer longer than the stream, rename refused) for the 7 file pullers and pull_value(_async) against a scripted SVS peer and the crate's Server with failing reader/writer producers, destination pre-existing or absent, both compression settings: systematic over every k plus random sizes around io::copy's 8 KiB buffer; each traced pull runs in a child under strace (-P dest -P temp), each kill point is strace's SIGKILL injection on entry to the N-th open/write/fsync/close/rename/unlink of the two paths. Non-trivial = at least one non-empty chunk was delivered before the end of the script (every trace / kill case is)".into();
     let work = std::fs::canonicalize(&args.out).expect("out dir").join("work");
@@ -1831,6 +2110,7 @@ fn main() {
         syncfault_ok: fsync_on_devnull_fails(),
         anywrite: args.thorough(),
     };
+    ctx.fake.start_ws(&ctx.rt);
     out.extra.insert("strace".into(), serde_json::json!(ctx.strace_ok));
     match args.replay_ops() {
         Some(ops) => replay(ops, &mut out, &mut ctx),
